@@ -51,8 +51,8 @@ CNS = Fn(A, "create_next_state", home="C02", implicit_props=("C09", "C02", "C05"
              body_exit="proof { lemma_phase1_next_tx(c0, next_state.coins@.coins, txx, it.index@ as int, rel); }",
              invariants=[
             C("common1", COMMON_INV, "C02", "C20"),
-            C("p1", "phase1(c0, next_state.coins@.coins, txx, it.index@ as int, false, rel, 0)", "C02"),
-            C("fee1", FEE0, "C05"),
+            C("p1", "phase1(c0, next_state.coins@.coins, txx, it.index@ as int, false, rel, 0)", "C02", "C01"),
+            C("fee1", FEE0, "C05", "C01", "C03"),
             C("seq1", "refs_of(it.seq(), txx)", "C02"),
             C("fauc1", FAUC % "it.index@", "C19"),
         ]),
@@ -63,8 +63,8 @@ CNS = Fn(A, "create_next_state", home="C02", implicit_props=("C09", "C02", "C05"
                  lemma_phase1_step(c0, cb, next_state.coins@.coins, txx, j, rel, i as int); }""",
              invariants=[
             C("common1i", COMMON_INV, "C02", "C20"),
-            C("p1i", "phase1(c0, next_state.coins@.coins, txx, it.index@ as int, true, rel, i as int)", "C02"),
-            C("fee1i", FEE0, "C05"),
+            C("p1i", "phase1(c0, next_state.coins@.coins, txx, it.index@ as int, true, rel, i as int)", "C02", "C01"),
+            C("fee1i", FEE0, "C05", "C01", "C03"),
             C("ctx1i", "refs_of(it.seq(), txx) && 0 <= it.index@ < txx.len() && *tx == txx[it.index@ as int] && txhash == spec_txhash(*tx)", "C02"),
             C("fauc1i", FAUC % "it.index@ + 1", "C19"),
         ]),
@@ -75,8 +75,8 @@ CNS = Fn(A, "create_next_state", home="C02", implicit_props=("C09", "C02", "C05"
                  assert forall|h: TxHash| true implies (#[trigger] in_batch(txx, j + 1, h) <==> (in_batch(txx, j, h) || h == spec_txhash(txx[j]))) by { lemma_in_batch_next(txx, j, h); } }""",
              invariants=[
             C("common2", COMMON_INV, "C02", "C20"),
-            C("p2", "phase1(c0, c1, txx, txx.len() as int, false, rel, 0) && phase2(c1, next_state.coins@.coins, txx, it.index@ as int, 0)", "C02"),
-            C("fee2", FEE2 % ("it.index@ as int", "it.index@ as int", "it.index@ as int", "it.index@"), "C05"),
+            C("p2", "phase1(c0, c1, txx, txx.len() as int, false, rel, 0) && phase2(c1, next_state.coins@.coins, txx, it.index@ as int, 0)", "C02", "C01"),
+            C("fee2", FEE2 % ("it.index@ as int", "it.index@ as int", "it.index@ as int", "it.index@"), "C05", "C01", "C03"),
             C("seq2", "refs_of(it.seq(), txx)", "C02"),
             C("fauc2", FAUC % "txx.len()", "C19"),
             C("txs2", TXS % "it.index@ as int", "C02"),
@@ -85,8 +85,8 @@ CNS = Fn(A, "create_next_state", home="C02", implicit_props=("C09", "C02", "C05"
              body_exit="""proof { lemma_origin_remove(cb, *coinid); lemma_phase2_step(c1, cb, txx, it.index@ as int, it2.index@ as int); }""",
              invariants=[
             C("common2i", COMMON_INV, "C02", "C20"),
-            C("p2i", "phase1(c0, c1, txx, txx.len() as int, false, rel, 0) && phase2(c1, next_state.coins@.coins, txx, it.index@ as int, it2.index@ as int)", "C02"),
-            C("fee2i", FEE2 % ("it.index@ as int", "it.index@ as int", "it.index@ as int", "it.index@"), "C05"),
+            C("p2i", "phase1(c0, c1, txx, txx.len() as int, false, rel, 0) && phase2(c1, next_state.coins@.coins, txx, it.index@ as int, it2.index@ as int)", "C02", "C01"),
+            C("fee2i", FEE2 % ("it.index@ as int", "it.index@ as int", "it.index@ as int", "it.index@"), "C05", "C01", "C03"),
             C("ctx2i", "refs_of(it.seq(), txx) && 0 <= it.index@ < txx.len() && *tx == txx[it.index@ as int] && refs_of(it2.seq(), tx.inputs@)", "C02"),
             C("fauc2i", FAUC % "txx.len()", "C19"),
             C("txs2i", TXS % "it.index@ as int", "C02"),
